@@ -1673,7 +1673,9 @@ where
                             }
                         }
 
-                        if !server.in_transaction() {
+                        // The reply can also open the next COPY of the same query
+                        // (`COPY a FROM STDIN; COPY b FROM STDIN`): the server is still ours then.
+                        if !server.in_transaction() && !server.in_copy_mode() {
                             self.stats.transaction();
                             server
                                 .stats()
